@@ -13,7 +13,7 @@ use crate::rm::decide::{Carrier, Stage, Verdict};
 use crate::run::{finish, preflight, Ctx, Report, Tally, Tier};
 
 /// Request classes: valid, one defect per check before key lookup, wrong signature.
-pub const CLASSES: [(&str, &str); 14] = [
+pub const CLASSES: [(&str, &str); 15] = [
     ("valid", ""),
     ("path", "path-bad-escape"),
     ("query", "query-bad-escape"),
@@ -28,6 +28,7 @@ pub const CLASSES: [(&str, &str); 14] = [
     ("arity", "credential-arity"),
     ("scope", "scope-region"),
     ("signature", "wrong-signature"),
+    ("guessable-key", "guessable-key-signature"),
 ];
 
 #[derive(Clone, Debug)]
